@@ -3,6 +3,7 @@ import DaskModel.Lemmas.StructuralLemmas
 import DaskModel.Lemmas.PadLemmas
 import DaskModel.Lemmas.ShufflePlanLemmas
 import DaskModel.Lemmas.ReshapeGroupsLemmas
+import DaskModel.Lemmas.StructuralOpsLemmas
 import DaskModel.Generated.ChunkTolerance
 /-!
 # C24 — structural array operations equal NumPy (theorems)
@@ -441,5 +442,129 @@ example : reshapeRechunk [2, 3, 4] [6, 4] [[1, 1], [2, 1], [4]]
     = .ok ([some [1, 1], some [2, 1], some [4]], [some [2, 1, 2, 1], some [4]], [(2, 1), (1, 1)]) := by decide
 example : reshapeRechunk [12] [2, 3, 2] [[5, 7]] = .ok ([some [6, 6]], [some [1, 1], some [3], some [2]], [(1, 3)]) := by decide
 example : reshapeRechunk [4, 5, 6] [6, 5, 4] [[4], [5], [6]] = .error .notImpl := by decide
+
+
+/-! ### blockwise / key-map operations (Model/StructuralOps.lean): transpose, flip, rot90, tril / triu, stack, broadcast_to,
+tile, diff. `Grid.ofFn rc cc A` is the array `A` cut into blocks by `rc × cc`; `.read p q` is what the assembled result
+holds at `(p, q)`. The statements hold for every pair of chunk tuples (irregular, size-1, zero-length chunks included). -/
+
+/-- **transpose_den** (also swapaxes / moveaxis / `.T`, which call `transpose` with a permutation): the result has the
+    chunk tuples swapped and block `(j, i)` = `np.transpose` of block `(i, j)`; assembled it is `A.T`, for every chunking. -/
+theorem transpose_den {α} (rc cc : List Nat) (A : Nat → Nat → α) (p q : Nat) (hp : p < sum rc) (hq : q < sum cc) :
+    (Grid.ofFn rc cc A).transpose.read q p = some (A p q) ∧
+    (Grid.ofFn rc cc A).transpose.rc = cc ∧ (Grid.ofFn rc cc A).transpose.cc = rc := by
+  rw [Grid.transpose_read, Grid.read_ofFn rc cc A p q hp hq]; exact ⟨rfl, rfl, rfl⟩
+
+example : (Grid.ofFn [2, 1] [1, 3] (fun p q => 10 * p + q)).transpose.read 3 2 = some 23 := by decide
+
+/-- **flip_den** (2-d, either axis): chunk tuple reversed along the axis, blocks in reverse order and each reversed
+    (what `m[::-1]` builds) = NumPy's flip -/
+theorem flip_den {α} (rc cc : List Nat) (A : Nat → Nat → α) (p q : Nat) (hp : p < sum rc) (hq : q < sum cc) :
+    (Grid.ofFn rc cc A).flip0.read p q = some (A (sum rc - 1 - p) q) ∧
+    (Grid.ofFn rc cc A).flip1.read p q = some (A p (sum cc - 1 - q)) := by
+  constructor
+  · rw [Grid.flip0_read _ p q hp]
+    show (Grid.ofFn rc cc A).read (sum rc - 1 - p) q = _
+    exact Grid.read_ofFn rc cc A _ q (by omega) hq
+  · rw [Grid.flip1_read _ p q hq]
+    show (Grid.ofFn rc cc A).read p (sum cc - 1 - q) = _
+    exact Grid.read_ofFn rc cc A p _ hp (by omega)
+
+example : (Grid.ofFn [2, 1] [1, 3] (fun p q => 10 * p + q)).flip1.read 2 0 = some 23 := by decide
+
+/-- one axis, on the lists of blocks: values and chunks -/
+theorem flip1d_den {α} (blocks : List (List α)) :
+    (flipBlocks blocks).flatten = blocks.flatten.reverse ∧
+    (flipBlocks blocks).map List.length = (blocks.map List.length).reverse :=
+  ⟨flipBlocks_flatten blocks, flipBlocks_lengths blocks⟩
+
+/-- **rot90_den**: dask's `rot90` is NumPy's own composition (`k=1`: transpose(flip(m, 1)), `k=2`: flip(flip(m, 0), 1),
+    `k=3`: flip(transpose(m), 1)) of the two block plans above; for an `N × M` array: -/
+theorem rot90_den {α} (rc cc : List Nat) (A : Nat → Nat → α) (p q : Nat) :
+    (p < sum cc → q < sum rc → ((Grid.ofFn rc cc A).rot90 1).read p q = some (A q (sum cc - 1 - p))) ∧
+    (p < sum rc → q < sum cc → ((Grid.ofFn rc cc A).rot90 2).read p q = some (A (sum rc - 1 - p) (sum cc - 1 - q))) ∧
+    (p < sum cc → q < sum rc → ((Grid.ofFn rc cc A).rot90 3).read p q = some (A (sum rc - 1 - q) p)) := by
+  refine ⟨fun hp hq => ?_, fun hp hq => ?_, fun hp hq => ?_⟩
+  · show (Grid.ofFn rc cc A).flip1.transpose.read p q = _
+    rw [Grid.transpose_read, Grid.flip1_read _ q p hp]
+    show (Grid.ofFn rc cc A).read q (sum cc - 1 - p) = _
+    exact Grid.read_ofFn rc cc A q _ hq (by omega)
+  · show (Grid.ofFn rc cc A).flip0.flip1.read p q = _
+    rw [Grid.flip1_read _ p q hq]
+    show (Grid.ofFn rc cc A).flip0.read p (sum cc - 1 - q) = _
+    rw [Grid.flip0_read _ p _ hp]
+    show (Grid.ofFn rc cc A).read (sum rc - 1 - p) (sum cc - 1 - q) = _
+    exact Grid.read_ofFn rc cc A _ _ (by omega) (by omega)
+  · show (Grid.ofFn rc cc A).transpose.flip1.read p q = _
+    rw [Grid.flip1_read _ p q hq]
+    show (Grid.ofFn rc cc A).transpose.read p (sum rc - 1 - q) = _
+    rw [Grid.transpose_read]
+    exact Grid.read_ofFn rc cc A _ p (by omega) hp
+
+example : ((Grid.ofFn [2, 1] [1, 3] (fun p q => 10 * p + q)).rot90 1).read 0 2 = some 23 := by decide
+
+/-- **tril_den / triu_den**: block `(i, j)` of the mask compares block `i` of `arange(N)` with block `j` of
+    `arange(-k, M - k)` (their values are the global positions: C34 `arange_den`), `where` keeps / zeroes block-wise:
+    assembled this is NumPy's `tril` (`j ≤ i + k` kept) / `triu` (`j ≥ i + k` kept), for every chunking and every `k`. -/
+theorem tril_den {α} (z : α) (k : Int) (rc cc : List Nat) (A : Nat → Nat → α) (p q : Nat) (hp : p < sum rc) (hq : q < sum cc) :
+    ((Grid.ofFn rc cc A).tril z k).read p q = some (if (q : Int) ≤ (p : Int) + k then A p q else z) := by
+  rw [Grid.tril_read, Grid.read_ofFn rc cc A p q hp hq]; rfl
+
+theorem triu_den {α} (z : α) (k : Int) (rc cc : List Nat) (A : Nat → Nat → α) (p q : Nat) (hp : p < sum rc) (hq : q < sum cc) :
+    ((Grid.ofFn rc cc A).triu z k).read p q = some (if (p : Int) + k ≤ (q : Int) then A p q else z) := by
+  rw [Grid.triu_read, Grid.read_ofFn rc cc A p q hp hq]; rfl
+
+example : ((Grid.ofFn [2, 1] [1, 3] (fun p q => 10 * p + q + 1)).tril 0 (-1)).read 2 1 = some 22 := by decide
+example : ((Grid.ofFn [2, 1] [1, 3] (fun p q => 10 * p + q + 1)).tril 0 (-1)).read 2 2 = some 0 := by decide
+
+/-- **stack_den** (1-d arrays with unified chunks `cs`, new axis first or last): chunks `((1,)*n, cs)` resp. `(cs, (1,)*n)`,
+    key `(k, j)` <- block `j` of array `k`; row (column) `k` of the result is array `k` -/
+theorem stack_den {α} (n : Nat) (cs : List Nat) (arrs : Nat → Nat → α) (k q : Nat) (hk : k < n) (hq : q < sum cs) :
+    (stackRows n cs (fun k => (Vec.ofFn cs (arrs k)).blk)).read k q = some (arrs k q) ∧
+    (stackCols n cs (fun k => (Vec.ofFn cs (arrs k)).blk)).read q k = some (arrs k q) := by
+  constructor
+  · rw [stackRows_read n cs _ k q hk]; exact Vec.read_ofFn cs (arrs k) q hq
+  · rw [stackCols_read n cs _ q k hk]; exact Vec.read_ofFn cs (arrs k) q hq
+
+example : (stackRows 2 [1, 2] (fun k => (Vec.ofFn [1, 2] (fun q => 10 * k + q)).blk)).read 1 2 = some 12 := by decide
+
+/-- **broadcast_to_den**: a new leading axis with any chunks `rows` (every new block is `np.broadcast_to` of the old block
+    with the same index on the old axes), and a length-one axis chunked `(1,)` stretched to any chunks `new`
+    (`old_index = 0`) -/
+theorem broadcast_to_den {α} (rows cs new : List Nat) (A : Nat → α) (p q : Nat) (hp : p < sum rows) (hq : q < sum cs)
+    (hn : p < sum new) :
+    (broadcastRows rows (Vec.ofFn cs A)).read p q = some (A q) ∧
+    (broadcastLen1 new (Vec.ofFn [1] A)).read p = some (A 0) := by
+  constructor
+  · rw [broadcastRows_read rows _ p q hp]; exact Vec.read_ofFn cs A q hq
+  · rw [broadcastLen1_read new _ p rfl hn]; exact Vec.read_ofFn [1] A 0 (by decide)
+
+example : (broadcastRows [2, 1] (Vec.ofFn [1, 2] (fun q => q + 5))).read 2 2 = some 7 := by decide
+
+/-- **tile_den** (one axis): `block([x] * r)` concatenates `r` copies of the block list; element `p` of the result is
+    `x[p mod n]` (NumPy's tile) -/
+theorem tile_den {α} (d : α) (r : Nat) (blocks : List (List α)) (p : Nat) (hp : p < r * blocks.flatten.length) :
+    (tileBlocks r blocks).flatten.getD p d = blocks.flatten.getD (p % blocks.flatten.length) d ∧
+    (tileBlocks r blocks).map List.length = (List.replicate r (blocks.map List.length)).flatten := by
+  constructor
+  · rw [tileBlocks_flatten]; exact tile_getD d blocks.flatten r p hp
+  · unfold tileBlocks
+    induction r with
+    | zero => rfl
+    | succ r ih => simp [List.replicate_succ, List.map_append]
+
+example : (tileBlocks 2 [[1, 2], [3]]).flatten = [1, 2, 3, 1, 2, 3] := by decide
+
+/-- **diff_den** (one axis): `r[1:] - r[:-1]` evaluated block by block on any common chunking `u` of the two slices
+    (what `elemwise` does after `unify_chunks`) is the first difference -/
+theorem diff_den (xs : List Int) (u : List Nat) (p : Nat) (hu : sum u = xs.length - 1) (hp : p + 1 < xs.length) :
+    ((elemwiseBlocks (· - ·) (splitBy u (xs.drop 1)) (splitBy u xs.dropLast)).flatten).getD p 0
+      = xs.getD (p + 1) 0 - xs.getD p 0 := by
+  rw [elemwiseBlocks_flatten (· - ·) u (xs.drop 1) xs.dropLast (by simp; omega) (by simp; omega)]
+  exact diff1_getD xs p hp
+
+example : (elemwiseBlocks (· - ·) (splitBy [1, 2] ([1, 4, 9, 16].drop 1)) (splitBy [1, 2] ([1, 4, 9, 16] : List Int).dropLast)).flatten
+    = [3, 5, 7] := by decide
+example : diffN 2 [1, 4, 9, 16] = [2, 2] := by decide
 
 end Dask.C24
